@@ -18,6 +18,17 @@ Positions: the parser walks the UTF-8 bytes of the pattern; an error records how
 left when it was detected, `refParse` turns that into a byte range inside the pattern.
 Unicode data (`unicode.SimpleFold` orbits, `\p{…}` tables) is a parameter (`Env`).
 Core Lean only.
+
+Peculiarities of the syntax that the reading takes over from the code and its tests (observed, not judged):
+`.` inside a class is "any but newline"; a `-` at the start of a class item is a literal unless `[` or a
+set escape follows (then it subtracts), so `[--a]` is `{-,a}`; `x-[` after a single character is a range
+up to `[` (subtraction needs a range or a set before it: `[a-z-[b]]`, `[\d-[5]]`); a named set with exactly
+one code point can be a range end; `\Q…\E` is not case-folded and a quantifier after it applies to the whole
+quoted text; outside a class `\d \w \s`, `\p{Any}`, `\p{Ascii}` and Unicode *properties* are not closed under
+`(?i)` (categories and scripts are, through `unicode.FoldCategory/FoldScript`), inside a class the whole class
+is closed once at the end, after subtraction and before negation; `(?i-)` switches folding off; a quantifier
+with nothing before it in its branch (`*a`, `(+)`, `a|?`) is a literal; in byte mode a lone escape above
+0x7f (`\xff`, `\u00e9`) denotes the UTF-8 bytes of that code point while `[\xff]` denotes the byte.
 -/
 namespace TmVerif.Regex
 open TmVerif.Charset
